@@ -34,14 +34,22 @@ type Run struct {
 	// Slow selects the slow-plugin default scheduler: a goroutine reaching the end of a plugin call waits until every
 	// other goroutine is blocked or at the end of a plugin call too (longest-waiting first); resuming earlier is a deviation.
 	Slow bool
+	// Full: in the thorough tier the run uses the larger (thorough) shape bounds; otherwise it keeps the quick shapes and
+	// only its delay bound grows. Only meaningful when ShapesByRun is set.
+	Full        bool
+	ShapesByRun bool
 }
 
 // Label names the run in output and evidence (a harness may run under both default schedulers).
 func (r *Run) Label() string {
+	l := r.Fn
 	if r.Slow {
-		return r.Fn + "@slow"
+		l += "@slow"
 	}
-	return r.Fn
+	if r.Full {
+		l += "@full"
+	}
+	return l
 }
 
 type Property struct {
@@ -197,7 +205,14 @@ func cmdCheck(args []string) int {
 		if maxSteps == 0 {
 			maxSteps = 3_000_000
 		}
-		cfg := &sx.Config{Harness: r.Fn, Tier: tier, MaxSteps: maxSteps, Preemptions: r.P[ti], Ticks: r.Ticks[ti], SwitchOn: map[string]bool{}, Bounds: map[string]int{}}
+		shapeTier := tier
+		if r.ShapesByRun {
+			shapeTier = "quick"
+			if r.Full {
+				shapeTier = "thorough"
+			}
+		}
+		cfg := &sx.Config{Harness: r.Fn, Tier: shapeTier, MaxSteps: maxSteps, Preemptions: r.P[ti], Ticks: r.Ticks[ti], SwitchOn: map[string]bool{}, Bounds: map[string]int{}}
 		for _, s := range r.SwitchOn {
 			cfg.SwitchOn[s] = true
 		}
